@@ -12,7 +12,7 @@ A *case* is a JSON value
 REQ  = "dflt" | "off" | "on"          (the allow_exec keyword: absent / False / True)
 OPT  = ["absent"] | ["bool", b] | ["str", s] | ["int", n] | ["none"]     (genshi.allow_exec)
 ITEM = ["text", id] | ["expr", id] | ["code", id, place] | ["incl", name, parse, dyn]
-place = "top" | "if" | "for" | "def" | "match" | "ifalse"    (how the code block is wrapped)
+place = a key of WRAP (how the code block is wrapped: directive kinds, nesting, xi:fallback)
 parse = "same" | "xml" | "text"      dyn = href is an expression (never inlined)
 
 files[0] is the root template.  Code block `id` runs `sentinel.append(id)`.
@@ -23,9 +23,71 @@ NS = 'xmlns:py="http://genshi.edgewall.org/" xmlns:xi="http://www.w3.org/2001/XI
 EXT = {'markup': '.html', 'newtext': '.txt', 'oldtext': '.old'}
 CLASSES = ['markup', 'newtext', 'oldtext']
 REQS = ['dflt', 'off', 'on']
-PLACES_MARKUP = ['top', 'if', 'for', 'def', 'match', 'ifalse']
-PLACES_TEXT = ['top', 'if', 'for', 'def', 'ifalse']
-MULT = {'top': 1, 'if': 1, 'for': 2, 'def': 1, 'match': 1, 'ifalse': 0}
+# how a code block (or, for the code-free twin, a plain expression) is wrapped: place -> (markup
+# fragment, new-style text fragment or None, number of times the block runs).  @K@ = the block,
+# @I@ = its id.  The fragments produce no output token (`t<id>;` / `e<id>;`).
+def _n(*frags):
+    """nest the fragments: each one goes into the @K@ of the one before"""
+    out = '@K@'
+    for f in frags:
+        out = out.replace('@K@', f)
+    return out
+
+
+_INC = '<xi:include href="nofile.html"><xi:fallback>@K@</xi:fallback></xi:include>'
+_INCD = '<xi:include href="${\'nofile.html\'}"><xi:fallback>@K@</xi:fallback></xi:include>'
+_CH_M = '<py:choose test="1"><py:when test="1">@K@</py:when><py:otherwise>o</py:otherwise></py:choose>'
+_OT_M = '<py:choose test="1"><py:when test="2">w</py:when><py:otherwise>@K@</py:otherwise></py:choose>'
+_CH_T = '{% choose 1 %}{% when 1 %}@K@{% end %}{% otherwise %}o{% end %}{% end %}'
+_OT_T = '{% choose 1 %}{% when 2 %}w{% end %}{% otherwise %}@K@{% end %}{% end %}'
+_IF_M, _FOR_M, _WITH_M = ('<py:if test="True">@K@</py:if>', '<py:for each="_ in range(2)">@K@</py:for>',
+                          '<py:with vars="v=1">@K@</py:with>')
+_IF_T, _FOR_T, _WITH_T = '{% if True %}@K@{% end %}', '{% for _ in range(2) %}@K@{% end %}', '{% with v=1 %}@K@{% end %}'
+_DEF_M, _DEF_T = '<py:def function="f@I@()">@K@</py:def>${f@I@()}', '{% def f@I@() %}@K@{% end %}${f@I@()}'
+_MATCH_M = '<py:match path="m@I@">@K@</py:match><m@I@/>'
+WRAP = {
+    # place: (markup, newtext, multiplicity)
+    'top': ('@K@', '@K@', 1),
+    'if': (_IF_M, _IF_T, 1),
+    'ifalse': ('<py:if test="False">@K@</py:if>', '{% if False %}@K@{% end %}', 0),
+    'for': (_FOR_M, _FOR_T, 2),
+    'def': (_DEF_M, _DEF_T, 1),
+    'match': (_MATCH_M, None, 1),
+    # wave 4: every directive kind, nesting depth >= 2, xi:fallback
+    'with': (_WITH_M, _WITH_T, 1),
+    'when': (_CH_M, _CH_T, 1),
+    'otherwise': (_OT_M, _OT_T, 1),
+    'ifattr': ('<p py:if="True">@K@</p>', None, 1),
+    'multiattr': ('<p py:if="True" py:for="_ in range(2)" py:with="v=1">@K@</p>', None, 2),
+    'deepelem': ('<a><b><c>@K@</c></b></a>', None, 1),
+    'if_for': (_n(_IF_M, _FOR_M), _n(_IF_T, _FOR_T), 2),
+    'for_if_with': (_n(_FOR_M, _IF_M, _WITH_M), _n(_FOR_T, _IF_T, _WITH_T), 2),
+    'def_if': (_n(_DEF_M, _IF_M), _n(_DEF_T, _IF_T), 1),
+    'match_for_if': (_n(_MATCH_M, _FOR_M, _IF_M), None, 2),
+    'with_when_if': (_n(_WITH_M, _CH_M, _IF_M), _n(_WITH_T, _CH_T, _IF_T), 1),
+    'otherwise_for': (_n(_OT_M, _FOR_M), _n(_OT_T, _FOR_T), 2),
+    'if_if_if_if': (_n(_IF_M, _IF_M, _IF_M, _IF_M), _n(_IF_T, _IF_T, _IF_T, _IF_T), 1),
+    'fallback': (_INC, None, 1),
+    'fallback_dyn': (_INCD, None, 1),
+    'if_fallback': (_n(_IF_M, _INC), None, 1),
+    'fallback_for_if': (_n(_INC, _FOR_M, _IF_M), None, 2),
+    'fallback_fallback': (_n(_INCD, _IF_M, _INC), None, 1),
+    # after long content (a guard that only looks at the beginning of the stream)
+    'long': ('<i a="1">x ${1}</i>' * 14 + '@K@', 'x ${1} {# c #}\n' * 14 + '@K@', 1),
+}
+PLACES_OLD = ['top', 'if', 'for', 'def', 'match', 'ifalse']
+PLACES_MARKUP = [p for p in WRAP if WRAP[p][0] is not None]
+PLACES_TEXT = [p for p in WRAP if WRAP[p][1] is not None]
+MULT = dict((p, w[2]) for p, w in WRAP.items())
+
+
+def wrap(syn, place, inner, i):
+    """the fragment that puts `inner` at `place` in a template of class `syn`"""
+    frag = WRAP[place][0 if syn == 'markup' else 1]
+    if frag is None:
+        raise ValueError(place)
+    return frag.replace('@I@', str(i)).replace('@K@', inner)
+
 
 WORDS_ON = ['yes', 'true', 'on', '1']
 WORDS_OFF = ['no', 'false', 'off', '0']
@@ -74,21 +136,7 @@ def src_markup(items, abs_dir=None):
             out.append("${'e%d;'}" % it[1])
         elif k == 'code':
             i, place = it[1], it[2]
-            pi = '<?python %s ?>' % stmt(i)
-            if place == 'top':
-                out.append(pi)
-            elif place == 'if':
-                out.append('<py:if test="True">%s</py:if>' % pi)
-            elif place == 'ifalse':
-                out.append('<py:if test="False">%s</py:if>' % pi)
-            elif place == 'for':
-                out.append('<py:for each="_ in range(2)">%s</py:for>' % pi)
-            elif place == 'def':
-                out.append('<py:def function="f%d()">%s</py:def>${f%d()}' % (i, pi, i))
-            elif place == 'match':
-                out.append('<py:match path="m%d">%s</py:match><m%d/>' % (i, pi, i))
-            else:
-                raise ValueError(place)
+            out.append(wrap('markup', place, '<?python %s ?>' % stmt(i), i))
         elif k == 'incl':
             name, parse, dyn = it[1], it[2], it[3]
             if abs_dir:
@@ -112,19 +160,7 @@ def src_newtext(items, abs_dir=None):
             out.append("${'e%d;'}" % it[1])
         elif k == 'code':
             i, place = it[1], it[2]
-            blk = '{%% python %s %%}' % stmt(i)
-            if place == 'top':
-                out.append(blk)
-            elif place == 'if':
-                out.append('{% if True %}' + blk + '{% end %}')
-            elif place == 'ifalse':
-                out.append('{% if False %}' + blk + '{% end %}')
-            elif place == 'for':
-                out.append('{% for _ in range(2) %}' + blk + '{% end %}')
-            elif place == 'def':
-                out.append('{%% def f%d() %%}%s{%% end %%}${f%d()}' % (i, blk, i))
-            else:
-                raise ValueError(place)
+            out.append(wrap('newtext', place, '{%% python %s %%}' % stmt(i), i))
         elif k == 'incl':
             name, dyn = it[1], it[3]
             if abs_dir:
@@ -292,6 +328,28 @@ def root_configs(root_syn, spellings, deep=False):
     return out
 
 
+def slim_configs(root_syn):
+    """a small set of (root, cfg) pairs: every kind of root, flags off / on / mixed, both reload modes"""
+    out = []
+    ab = ['absent']
+    for t in ('off', 'on'):
+        out.append(({'kind': 'direct', 'src': 'str', 'own_loader': True},
+                    {'tmpl': t, 'loader': 'dflt', 'opt': ab, 'auto_reload': False}))
+    for t, l in (('off', 'off'), ('on', 'off'), ('off', 'on')):
+        for ar in (False, True):
+            out.append(({'kind': 'direct', 'src': 'str', 'own_loader': False},
+                        {'tmpl': t, 'loader': l, 'opt': ab, 'auto_reload': ar}))
+    for l in ('off', 'on'):
+        for ar in (False, True):
+            out.append(({'kind': 'load', 'cls': 'arg'}, {'tmpl': 'dflt', 'loader': l, 'opt': ab, 'auto_reload': ar}))
+    plugin = {'markup': 'markup', 'newtext': 'newtext', 'oldtext': 'text'}[root_syn]
+    for kind in ('plugin-file', 'plugin-string'):
+        for o in (['str', 'No'], ['bool', False], ab):
+            out.append(({'kind': kind, 'plugin': plugin},
+                        {'tmpl': 'dflt', 'loader': 'dflt', 'opt': o, 'auto_reload': o[0] == 'bool'}))
+    return out
+
+
 def enumerate_cases(thorough=False):
     """the finite configuration space: classes x roots x configurations x spellings x include
     chains x (code block in the deepest template | code-free).  Quick: chains of depth <= 3,
@@ -326,10 +384,34 @@ def enumerate_cases(thorough=False):
                     if dyn and not ch:
                         continue
                     files = chain_files(syn, ch, True, place, dyn)
+                    if place not in PLACES_OLD:
+                        # wave 4 placements (every directive kind, nesting, fallbacks): static
+                        # includes, a slim set of configurations (thorough: the full set)
+                        if dyn:
+                            continue
+                        if not thorough:
+                            for root, cfg in slim_configs(syn):
+                                cases.append({'cfg': cfg, 'root': root, 'files': files})
+                            continue
                     for root, cfg in root_configs(syn, [['absent'], ['str', 'no'], ['str', 'yes'], ['bool', False]]):
                         if root['kind'] == 'direct' and root['src'] not in ('str', 'stream'):
                             continue
                         cases.append({'cfg': cfg, 'root': root, 'files': files})
+    # a directly constructed template that goes through pickle before its first render: what it
+    # includes is instantiated by the unpickled loader (its own, or a fresh explicit one)
+    for syn in CLASSES:
+        for ch in chains(syn, 2):
+            if not ch:
+                continue
+            files = chain_files(syn, ch, True)
+            for own in (True, False):
+                for t, l in (('off', 'off'), ('on', 'on'), ('off', 'on'), ('on', 'off')):
+                    if own and l != t:
+                        continue
+                    for ar in ((False,) if own else (False, True)):
+                        cases.append({'cfg': {'tmpl': t, 'loader': l if not own else 'dflt', 'opt': ['absent'], 'auto_reload': ar},
+                                      'root': {'kind': 'direct', 'src': 'str', 'own_loader': own, 'pickle': True},
+                                      'files': files})
     return cases
 
 
